@@ -183,7 +183,9 @@ def observe(m, refnames, roots):
                 if is_prefix(bp_, tp):
                     exp = resolve(sp, tp[len(bp_):])
                     if exp is None:
-                        pf.append("%s: no corresponding object %s below %s" % (where, tp[len(bp_):], sp.fullname))
+                        # no corresponding object (yet): the reference must not denote anything else
+                        if d != ["deleted"]:
+                            pf.append("%s: no corresponding object %s below %s but the reference is %s" % (where, tp[len(bp_):], sp.fullname, d))
                     elif val is not exp:
                         pf.append("%s: %s reference to %s (inside %s) is %s, not the corresponding %s"
                                   % (where, dp.refmode, tobj.fullname, definer.fullname, d, exp.fullname))
